@@ -1,6 +1,7 @@
 """C03 - Proxy forwards requests/responses faithfully, hop-by-hop stripped, well-framed (DESIGN 5/C03).
 
-phases (VERIF_PHASES): mc    exhaustive model checking of the repaired implementation-shaped layer against the contract
+phases (VERIF_PHASES): mc    exhaustive model checking of the repaired implementation-shaped layer against the contract: one exchange /
+                             sequences of exchanges (ProxyMsg) and exchanges in flight at the same time on one proxy instance (ProxyMsgPar)
                        lead  (thorough) the same with one defect left in: TLC must find the contract violation
                        mbt   scenarios enumerated by TLC, concretised and run on the real code over sockets,
                              the recorded exchanges evaluated by TLC against the contract (ProxyMsg_Trace)
@@ -8,11 +9,13 @@ phases (VERIF_PHASES): mc    exhaustive model checking of the repaired implement
 from props import _proxymsg as pm
 
 PKG = "pkg/object/httpserver"
-INVS = ("INVARIANTS Faithful Reaches PathUnchanged BodyUnchanged HopStripped HostRule StatusKept ContentKept WellFramed NoTruncatedSuccess "
-        "HitLikeMiss Composed\n")
+INVS = ("INVARIANTS Faithful Reaches PathUnchanged BodyUnchanged HopStripped HostRule StatusKept ContentKept BodilessLength WellFramed "
+        "NoTruncatedSuccess HitLikeMiss Composed\n")
+PAR_INVS = "INVARIANTS ParFaithful Isolated GzInFlight\n"
 
 REQ_CLAUSES = ("reach", "method", "path", "query", "reqbody", "reqe2e", "reqhop", "host")
-PRIORITY = ("reach", "status", "path", "query", "method", "host", "reqbody", "reqhop", "reqe2e", "truncated", "framed", "content", "respe2e")
+PRIORITY = ("reach", "status", "path", "query", "method", "host", "reqbody", "reqhop", "reqe2e", "truncated", "framed", "content", "respe2e",
+            "resplen")
 
 
 def mc_cfg(fixed, quick):
@@ -29,11 +32,18 @@ def gen_cfg(quick):
 ALL = ["F5", "F6", "F7", "HEAD", "METRIC", "ABORT", "CLONE"]
 
 
+def par_cfg(fixed, space, p):
+    return "SPECIFICATION Spec\nCONSTANTS\n  Fixed = {%s}\n  ParSpace <- %s\n  P = %d\n" % (", ".join('"%s"' % f for f in fixed), space, p)
+
+
 def run(ctx):
     ctx.cov["rule"] = ("scenario = one element of the request-direction or response-direction toggle product of specs/ProxyMsgDefs.tla "
                        "(enumerated by TLC); evaluation = one real exchange (raw client -> mux.ServeHTTP -> Pipeline[RequestAdaptor? Proxy "
                        "ResponseAdaptor?] -> raw TCP backend and back) whose recording TLC evaluated against the contract; "
                        "a response scenario with a memory cache is a sequence of 3 identical requests to one proxy instance, each a recorded exchange; "
+                       "about 1 case in 5 is a warm-up exchange followed by 2-4 requests in flight at the same time on one proxy instance (every backend "
+                       "answer under way before any is completed), each a recorded exchange judged by itself; the media type of the backend's response and "
+                       "of the client's request body rotates over none|octet-stream|text|json|event-stream|grpc|multipart; "
                        "trace = the same recorded exchange; non-trivial = distinct (request scenario class, response scenario, cache hit) "
                        "triples that exercise a non-default toggle")
     ctx.assumptions += [
@@ -49,10 +59,20 @@ def run(ctx):
         "a server url without a port is exercised on port 80 of loopback addresses 127.a.b.c (IPv6 literal: the IPv4-mapped form "
         "[::ffff:127.a.b.c]); host names are exercised with a port only",
         "byte equality / gzip / sha256 are computed by the harness abstraction (trusted); TLC sees identities and lengths",
+        "304 responses: Content-Type and Content-Length are not demanded (RFC 7232 4.1; Go's net/http server removes them from every 304)",
+        "Content-Length of the bodiless answer to HEAD is an end-to-end header: it must arrive unchanged unless a ResponseAdaptor replaced the "
+        "body or the Content-Encoding the client is told differs from the backend's (the proxy recoded the representation)",
+        "exchanges in flight at the same time are each judged by the same per-exchange contract; backend responses that break off and retried "
+        "requests are exercised sequentially only",
     ]
     if ctx.phase("mc"):
         r = ctx.tlc_mc("ProxyMsg", mc_cfg(ALL, ctx.quick) + INVS, label="repaired implementation layer refines the contract", timeout=1500)
         ctx.log("model checked: %d distinct states in %.0fs" % (r.distinct, r.wall))
+        runs = [("ParScnQuick", 2)] if ctx.quick else [("ParScnFull", 2), ("ParScnQuick", 3)]
+        for space, p in runs:
+            r = ctx.tlc_mc("ProxyMsgPar", par_cfg(ALL + ["GZOWN"], space, p) + PAR_INVS, timeout=1500,
+                           label="warm-up + %d exchanges in flight at the same time (%s): each faithful and answered as if alone" % (p, space))
+            ctx.log("overlapping exchanges model checked: %d distinct states in %.0fs" % (r.distinct, r.wall))
     if ctx.phase("lead") and not ctx.quick:
         _leads(ctx)
     if ctx.phase("mbt"):
@@ -67,7 +87,11 @@ def _leads(ctx):
                        count=False, label="lead: model with defect %s left in" % f, timeout=900)
         if r.violated != "Faithful":
             ctx.inconclusive("the model with defect %s left in does not violate the contract (vacuous model?):\n%s" % (f, r.out[-1500:]))
-    ctx.log("leads: TLC finds a contract violation for each of %s when it is left in the model" % ALL)
+    r = ctx.tlc_mc("ProxyMsgPar", par_cfg(ALL, "ParScnQuick", 2) + "INVARIANTS ParFaithful\n", expect_ok=False, count=False,
+                   label="lead: one gzip compressor shared by the exchanges in flight", timeout=900)
+    if r.violated != "ParFaithful":
+        ctx.inconclusive("the model with a compressor shared between overlapping exchanges does not violate the contract (vacuous model?):\n%s" % r.out[-1500:])
+    ctx.log("leads: TLC finds a contract violation for each of %s when it is left in the model" % (ALL + ["GZOWN"]))
 
 
 def _pair(ctx, vecs):
@@ -77,15 +101,22 @@ def _pair(ctx, vecs):
     rnd = pm.rng(ctx, 303)
     reqs = [v for v in vecs if v["dir"] == "req"]
     resps = [v for v in vecs if v["dir"] == "resp"]
-    if not reqs or not resps:
+    dims = [v for v in vecs if v["dir"] == "dims"]
+    if not reqs or not resps or len(dims) != 1:
         ctx.inconclusive("vector generation produced no scenarios")
+    ctypes, degrees = dims[0]["ctypes"], dims[0]["par"]
     reqs.sort(key=lambda v: pm.jdump(v["s"]))
     resps.sort(key=lambda v: pm.jdump(v["s"]))
     rnd.shuffle(reqs)
     rnd.shuffle(resps)
     strata = {"plain": [v for v in resps if not v["s"]["cache"] and not v["s"]["short"]],
               "cache": [v for v in resps if v["s"]["cache"]],
-              "short": [v for v in resps if v["s"]["short"]]}
+              "short": [v for v in resps if v["s"]["short"]],
+              # run with several exchanges in flight at the same time: scenarios in which a body travels (what can overlap are bodies
+              # under way), two thirds of them without a memory cache (a hit asks no backend)
+              "par": [v for j, v in enumerate(v for v in resps if v["parOk"] and not v["s"]["head"] and v["s"]["bsize"] > 0)
+                      if not v["s"]["cache"] or j % 3 == 0]}
+    nofail = [v for v in reqs if v["s"]["fails"] == 0]
     if not all(strata.values()):
         ctx.inconclusive("vector generation produced no scenario for one of the strata %s" % sorted(strata))
     n = 1200 if ctx.quick else 12000
@@ -93,10 +124,12 @@ def _pair(ctx, vecs):
     cases = []
     taken = {k: 0 for k in strata}
     for i in range(n):
-        st = ("plain", "cache", "plain", "short", "plain", "cache", "plain", "cache", "plain", "short")[i % 10]
+        st = ("plain", "cache", "plain", "short", "plain", "cache", "par", "plain", "cache", "plain", "short", "par")[i % 12]
         pv = strata[st][taken[st] % len(strata[st])]
         taken[st] += 1
         rv = reqs[i % len(reqs)]
+        if st == "par" and nofail:
+            rv = nofail[i % len(nofail)]
         if pv["s"]["head"] and rv["s"]["rbody"] != "none":
             rv = bodyless[i % len(bodyless)]
         exps = []
@@ -105,7 +138,14 @@ def _pair(ctx, vecs):
             exp.update({k: pexp[k] for k in ("status", "clabel")})
             exp["viol"] = sorted(set(rv["exp"]["viol"]) | set(pexp["viol"]))
             exps.append(exp)
-        cases.append({"id": i + 1, "req": rv, "resp": pv, "exps": exps})
+        case = {"id": i + 1, "req": rv, "resp": pv, "exps": exps,
+                # media type of the backend's response / of the client's request body: every class in turn
+                "ctype": ctypes[(i + ctx.seed) % len(ctypes)], "rctype": ctypes[(i // len(ctypes) + ctx.seed) % len(ctypes)], "par": 0}
+        # exchanges in flight at the same time (a warm-up, then `par` overlapping ones): the par stratum, and a share of the others
+        # (bodiless and empty responses, more cache sequences)
+        if pv["parOk"] and rv["s"]["fails"] == 0 and (st == "par" or i % 24 in (2, 5)):
+            case["par"] = degrees[(i // 12 + ctx.seed) % len(degrees)]
+        cases.append(case)
     return cases
 
 
@@ -125,6 +165,8 @@ def _sig(case, clause, k=1):
     sig = {"dir": "resp", "clause": clause}
     sig.update({k: ps[k] for k in ("comp", "rsa", "rsahdr", "respMode", "ae", "head", "bframing", "benc", "cache", "short")})
     sig["empty"] = ps["bsize"] == 0
+    sig["notModified"] = ps["status"] == 304
+    sig["overlapping"] = case["par"] > 0 and k > 1     # one of several exchanges in flight at the same time
     sig["finalLabel"] = case["exps"][min(k, len(case["exps"])) - 1]["clabel"]    # Content-Encoding the model predicts at the client
     sig.update(case["resp"]["feat"])
     return sig
@@ -134,25 +176,47 @@ def _mbt(ctx):
     vecs = ctx.tlc_dump("ProxyMsg_Gen", gen_cfg(ctx.quick), label="scenario vectors", timeout=900, count=False)
     cases = _pair(ctx, vecs)
     ctx.log("%d scenario vectors, %d cases" % (len(vecs), len(cases)))
-    events, summ = pm.run_harness(ctx, PKG, "TestVerifC03Run", cases, "c03", timeout=1500)
+    crashed = []
+
+    def on_crash(crash, case):
+        # the process serving the exchanges died of a panic raised in the code under test (outside a request handler, where net/http
+        # does not recover it): the exchanges in flight get no response at all - no clause about what the client receives can hold
+        crashed.append(crash)
+        sig = {"dir": "resp", "clause": "crash", "frame": crash["frame"]}
+        if case:
+            sig.update(overlapping=case["par"] > 0, comp=case["resp"]["s"]["comp"], rsa=case["resp"]["s"]["rsa"], ra=case["req"]["s"]["ra"])
+        ctx.violation(sig, "the process died while the exchanges of case %s were in flight (%s in %s at %s): the clients receive no response" % (
+            case and case["id"], crash["message"], crash["frame"], crash["at"]), {"case": case, "crash": crash})
+
+    events, summ = pm.run_harness(ctx, PKG, "TestVerifC03Run", cases, "c03", timeout=1500, on_crash=on_crash)
     ctx.log("%d exchanges recorded (ipv6 backend: %s, servers without a port: %s)" % (len(events), summ.get("ipv6"), summ.get("noport")))
-    if not summ.get("noport"):
+    if crashed:
+        ctx.log("the harness process died in the code under test: %s" % crashed[0]["message"])
+    elif not summ.get("noport"):
         ctx.notes.append("port 80 could not be bound on a loopback address: server urls without a port were run with a port")
     by_id = {c["id"]: c for c in cases}
     ev_by_id = {e["id"]: e for e in events}
     # vacuity: the new dimensions must really have been exercised
     hits = sum(1 for e in events if e["cfg"]["mayHit"] and not e["bs"])
     broken = sum(1 for e in events if e["br"]["short"])
-    if hits < 10 or broken < 10:
+    if (hits < 10 or broken < 10) and not crashed:
         ctx.inconclusive("only %d memory-cache hits and %d broken backend responses were exercised" % (hits, broken))
     ctx.log("%d exchanges answered from the memory cache, %d backend responses that break off" % (hits, broken))
+    # ... exchanges that really overlapped (every backend answer under way before any was completed) and whose body the proxy compressed
+    over = [e for e in events if e.get("overlap")]
+    overgz = [e for e in over if e["cr"]["body"]["label"] == "gzip" and e["br"]["body"]["label"] != "gzip"]
+    seen_ct = {by_id[e["case"]]["ctype"] for e in events}
+    if (len(over) < 40 or len(overgz) < 10 or len(seen_ct) < 5) and not crashed:
+        ctx.inconclusive("only %d overlapping exchanges (%d of them compressed by the proxy) and %d media types were exercised" % (
+            len(over), len(overgz), len(seen_ct)))
+    ctx.log("%d exchanges in flight at the same time as others (%d compressed by the proxy); media types %s" % (len(over), len(overgz), sorted(seen_ct)))
     verdicts = pm.evaluate(ctx, "ProxyMsg_Trace", events, "c03_trace")
     ctx.evals(len(events))
     ctx.traces(len(events))
     for e in events:
         c = by_id[e["case"]]
         ctx.nontrivial({"r": {k: v for k, v in c["req"]["s"].items() if k not in ("path", "query")}, "pc": c["req"]["pathcls"], "p": c["resp"]["s"],
-                        "hit": e["cfg"]["mayHit"] and not e["bs"]})
+                        "hit": e["cfg"]["mayHit"] and not e["bs"], "ct": c["ctype"], "par": c["par"] if e["k"] > 1 else 0})
     for e in events[:3]:
         ctx.sample({"kind": "exchange", "client_target": e["c"].get("targetText"),
                     "backend_targets": [b.get("targetText") for b in e["bs"]],
@@ -205,11 +269,17 @@ def _describe(clause, c, e):
         return "backend received request-target %r for the client's %r (%s differs)" % (
             [x.get("targetText") for x in bs], e["c"].get("targetText"), clause)
     if clause == "status":
-        return "client received status %s for the backend's %s (%s, Content-Length framing: %s, compression minLength %s, ResponseAdaptor %s)" % (
+        pre = "one of %d requests in flight at the same time on one proxy instance (after a warm-up exchange): " % e["par"] if e.get("par") and e["k"] > 1 else ""
+        return pre + "client received status %s for the backend's %s (%s, Content-Length framing: %s, compression minLength %s, ResponseAdaptor %s)" % (
             cr["status"], e["br"]["status"], e["c"]["method"], c["resp"]["s"]["bframing"], e["cfg"].get("compressionMin"), e["cfg"]["rsa"])
+    if clause == "resplen":
+        return ("the bodiless response (status %s to %s) lost the backend's Content-Length: backend declared %s, client received %s (Content-Encoding "
+                "%r at both ends, no ResponseAdaptor body)" % (cr["status"], e["c"]["method"], e["br"]["declared"], cr["declared"], cr["body"]["label"]))
     seq = ""
+    if e.get("par") and e["k"] > 1:
+        seq = "one of %d requests in flight at the same time on one proxy instance (after a warm-up exchange): " % e["par"]
     if e["cfg"].get("memoryCache"):
-        seq = "request %d of a sequence of identical requests to a pool with a memory cache (%s): " % (
+        seq += "request %d of a sequence of identical requests to a pool with a memory cache (%s): " % (
             e["k"], "answered without a backend" if not bs else "answered by the backend")
     if clause == "truncated":
         return ("the backend's response broke off (Content-Length %s declared, %s body bytes sent, then the connection was closed) and the client "
